@@ -28,13 +28,40 @@ func TestMain(m *testing.M) {
 	os.Exit(m.Run())
 }
 
-var c18Resources = []string{"widgets", "gadgets"}
+// subscription targets: "widgets@v2" is the widgets resource read through its second served version
+var c18Resources = []string{"widgets", "gadgets", "widgets@v2"}
 
 func c18Universe() []*vs.ResourceDef {
 	return []*vs.ResourceDef{
 		{Group: "ex.io", Version: "v1", Resource: "widgets", Kind: "Widget", Namespaced: true, HasStatus: true},
 		{Group: "other.io", Version: "v1beta1", Resource: "gadgets", Kind: "Gadget", Namespaced: true},
+		{Group: "ex.io", Version: "v2", Resource: "widgets", Kind: "Widget", Namespaced: true, HasStatus: true},
 	}
+}
+
+// c18Name is the resource name of a subscription target, c18APIVersion the version it is read through.
+func c18Name(key string) string { return strings.TrimSuffix(key, "@v2") }
+func c18APIVersion(key string) string {
+	switch key {
+	case "widgets":
+		return "ex.io/v1"
+	case "widgets@v2":
+		return "ex.io/v2"
+	}
+	return "other.io/v1beta1"
+}
+
+// c18Names lists the distinct resource names behind the first n targets.
+func c18Names(n int) []string {
+	var out []string
+	seen := map[string]bool{}
+	for _, k := range c18Resources[:n] {
+		if !seen[c18Name(k)] {
+			seen[c18Name(k)] = true
+			out = append(out, c18Name(k))
+		}
+	}
+	return out
 }
 
 type c18Event struct {
@@ -43,10 +70,13 @@ type c18Event struct {
 
 // c18Handler records what one registered handler receives.
 type c18Handler struct {
-	mu      sync.Mutex
-	id      string
-	log     []c18Event
-	removed bool
+	mu          sync.Mutex
+	id          string
+	name        string // resource name
+	apiVersion  string // the version this handler's subscription reads through
+	wrongObject string // first object delivered at another version
+	log         []c18Event
+	removed     bool
 }
 
 func (h *c18Handler) rec(typ string, obj interface{}) {
@@ -61,9 +91,12 @@ func (h *c18Handler) rec(typ string, obj interface{}) {
 	}
 	h.mu.Lock()
 	h.log = append(h.log, c18Event{typ, u.GetName(), u.GetResourceVersion()})
+	if h.apiVersion != "" && u.GetAPIVersion() != h.apiVersion && h.wrongObject == "" {
+		h.wrongObject = fmt.Sprintf("%s of %s %s", typ, u.GetAPIVersion(), u.GetName())
+	}
 	h.mu.Unlock()
 }
-func (h *c18Handler) OnAdd(obj interface{}, _ bool)  { h.rec("add", obj) }
+func (h *c18Handler) OnAdd(obj interface{}, _ bool) { h.rec("add", obj) }
 func (h *c18Handler) OnUpdate(_, cur interface{})   { h.rec("update", cur) }
 func (h *c18Handler) OnDelete(obj interface{})      { h.rec("delete", obj) }
 func (h *c18Handler) has(name, rv string) bool {
@@ -85,6 +118,11 @@ func (h *c18Handler) hasType(typ, name string) bool {
 		}
 	}
 	return false
+}
+func (h *c18Handler) wrong() string {
+	h.mu.Lock()
+	defer h.mu.Unlock()
+	return h.wrongObject
 }
 func (h *c18Handler) size() int {
 	h.mu.Lock()
@@ -140,7 +178,25 @@ func newC18World() (*c18World, error) {
 	return &c18World{rm: rm, sim: sim, factory: NewSharedInformerFactory(cs, 10*time.Minute), subs: map[string]*c18Sub{}}, nil
 }
 
-func (w *c18World) def(res string) *vs.ResourceDef { return w.sim.Def(res) }
+func (w *c18World) def(key string) *vs.ResourceDef {
+	for _, d := range w.sim.Defs() {
+		if d.Resource == c18Name(key) && d.APIVersion() == c18APIVersion(key) {
+			return d
+		}
+	}
+	panic("unknown target " + key)
+}
+
+// handlersOn lists the handlers of open subscriptions to any version of a resource.
+func (w *c18World) handlersOn(name string) []*c18Handler {
+	var out []*c18Handler
+	for k, s := range w.subs {
+		if c18Name(k[strings.Index(k, "/")+1:]) == name {
+			out = append(out, s.handlers...)
+		}
+	}
+	return out
+}
 
 func (w *c18World) openCount(res string) int {
 	n := 0
@@ -167,17 +223,18 @@ func poll(d time.Duration, f func() bool) bool {
 
 // settle checks the life-cycle and delivery invariants after an operation.
 func (w *c18World) settle(c *vs.Case, after string) error {
-	for _, res := range c18Resources {
+	for _, key := range c18Resources {
 		want := 0
-		if w.openCount(res) > 0 {
+		if w.openCount(key) > 0 {
 			want = 1
 		}
-		if !poll(5*time.Second, func() bool { return w.sim.OpenWatches()[res] == want }) {
-			return vs.Violf("C18/informer-lifecycle", "after %s: %d subscriptions to %s are open, so %d watch stream(s) must be running, the API server sees %d", after, w.openCount(res), res, want, w.sim.OpenWatches()[res])
+		gvr := c18Name(key) + "." + c18APIVersion(key)
+		if !poll(5*time.Second, func() bool { return w.sim.OpenWatchesByVersion()[gvr] == want }) {
+			return vs.Violf("C18/informer-lifecycle", "after %s: %d subscriptions to %s are open, so %d watch stream(s) must be running, the API server sees %d", after, w.openCount(key), gvr, want, w.sim.OpenWatchesByVersion()[gvr])
 		}
 	}
 	// probe: an outside update must reach every active handler and no retired one
-	for _, res := range c18Resources {
+	for _, res := range c18Names(len(c18Resources)) {
 		w.probeN++
 		name := "probe"
 		var rv string
@@ -188,29 +245,33 @@ func (w *c18World) settle(c *vs.Case, after string) error {
 			o, _ := w.sim.ExtUpdate(res, "ns1", name, func(obj map[string]any) { obj["spec"] = map[string]any{"n": int64(w.probeN)} })
 			rv, _ = o["metadata"].(map[string]any)["resourceVersion"].(string)
 		}
-		var active []*c18Handler
-		for k, s := range w.subs {
-			if strings.HasSuffix(k, "/"+res) {
-				active = append(active, s.handlers...)
-			}
-		}
+		active := w.handlersOn(res)
 		for _, h := range active {
 			hh := h
 			if !poll(5*time.Second, func() bool { return hh.has(name, rv) }) {
 				return vs.Violf("C18/event-not-delivered", "after %s: handler %s is registered on an open subscription to %s but did not receive the update of %s (rv %s)", after, hh.id, res, name, rv)
 			}
 		}
-		if len(active) == 0 && w.openCount(res) > 0 {
-			// let the informer process the event before looking at retired handlers
-			s := w.anySub(res)
+		// let every open informer of this resource process the event before looking at retired handlers
+		for _, key := range c18Resources {
+			if c18Name(key) != res || w.openCount(key) == 0 {
+				continue
+			}
+			s := w.anySub(key)
 			poll(2*time.Second, func() bool {
 				o, err := s.ri.Lister().Namespace("ns1").Get(name)
 				return err == nil && o.GetResourceVersion() == rv
 			})
 		}
 		for _, h := range w.retired {
-			if strings.HasSuffix(h.id, "@"+res) && h.has(name, rv) {
+			if h.name == res && h.has(name, rv) {
 				return vs.Violf("C18/event-after-removal", "after %s: handler %s was removed (or its subscription closed) but still received the update of %s (rv %s)", after, h.id, name, rv)
+			}
+		}
+		// objects arrive in the version the subscription asked for
+		for _, h := range append(active, w.retired...) {
+			if bad := h.wrong(); bad != "" {
+				return vs.Violf("C18/object-at-wrong-version", "after %s: handler %s subscribed through %s but was handed %s", after, h.id, h.apiVersion, bad)
 			}
 		}
 	}
@@ -249,7 +310,7 @@ func propC18(c *vs.Case, nSubs, nRes, length int) error {
 	var log []string
 	c.Describe(func() any { return map[string]any{"subscribers": nSubs, "resources": nRes, "ops": log} })
 	// a few objects exist before anyone subscribes
-	for _, res := range c18Resources[:nRes] {
+	for _, res := range c18Names(nRes) {
 		w.sim.ExtCreate(res, map[string]any{"metadata": map[string]any{"name": "pre", "namespace": "ns1"}, "spec": map[string]any{"x": "y"}})
 	}
 	sawReopen, closedToZero := false, map[string]bool{}
@@ -258,7 +319,7 @@ func propC18(c *vs.Case, nSubs, nRes, length int) error {
 	// one resource may be unknown to discovery at first (its CRD gets installed later)
 	hidden := map[string]bool{}
 	if c.Bool() {
-		res := c18Resources[c.Int(nRes)]
+		res := c18Name(c18Resources[c.Int(nRes)])
 		hidden[res] = true
 		w.sim.SetHidden(res, true)
 		w.rm.VerifRefresh()
@@ -276,9 +337,9 @@ func propC18(c *vs.Case, nSubs, nRes, length int) error {
 				key := fmt.Sprintf("s%d/%s", s, res)
 				sub := w.subs[key]
 				d := w.def(res)
-				if sub == nil && hidden[res] {
+				if sub == nil && hidden[c18Name(res)] {
 					ops = append(ops, op{"subscribe (resource unknown) " + key, func() error {
-						if ri, err := w.factory.Resource(d.APIVersion(), res); err == nil {
+						if ri, err := w.factory.Resource(d.APIVersion(), c18Name(res)); err == nil {
 							ri.Close()
 							return fmt.Errorf("harness: subscribing to a resource unknown to discovery succeeded")
 						}
@@ -289,9 +350,9 @@ func propC18(c *vs.Case, nSubs, nRes, length int) error {
 				}
 				if sub == nil {
 					ops = append(ops, op{"subscribe " + key, func() error {
-						lists := w.sim.ListCallCount(res)
+						lists := w.sim.ListCallCount(c18Name(res))
 						fresh := w.openCount(res) == 0
-						ri, err := w.factory.Resource(d.APIVersion(), res)
+						ri, err := w.factory.Resource(d.APIVersion(), c18Name(res))
 						if err != nil {
 							return fmt.Errorf("harness: %v", err)
 						}
@@ -303,7 +364,7 @@ func propC18(c *vs.Case, nSubs, nRes, length int) error {
 							if !poll(5*time.Second, func() bool { return ri.Informer().HasSynced() }) {
 								return vs.Violf("C18/fresh-informer-not-working", "a subscription to %s opened while none was open never synced", res)
 							}
-							if w.sim.ListCallCount(res) <= lists {
+							if w.sim.ListCallCount(c18Name(res)) <= lists {
 								return vs.Violf("C18/fresh-informer-not-working", "a subscription to %s opened while none was open did not start a new LIST+WATCH", res)
 							}
 						}
@@ -319,7 +380,7 @@ func propC18(c *vs.Case, nSubs, nRes, length int) error {
 					}
 					ops = append(ops, op{n + key, func() error {
 						hid++
-						h := &c18Handler{id: fmt.Sprintf("h%d:%s@%s", hid, key, res)}
+						h := &c18Handler{id: fmt.Sprintf("h%d:%s", hid, key), name: c18Name(res), apiVersion: c18APIVersion(res)}
 						// what is cached right now must be replayed to the new handler
 						var names []string
 						for _, it := range sub.ri.Informer().GetIndexer().List() {
@@ -343,7 +404,7 @@ func propC18(c *vs.Case, nSubs, nRes, length int) error {
 				ops = append(ops, op{"add-slow-handler+outside-create " + key, func() error {
 					// the handler is still busy with its replay when a new object appears
 					hid++
-					h := &c18SlowHandler{c18Handler: &c18Handler{id: fmt.Sprintf("h%d:%s@%s", hid, key, res)}, entered: make(chan struct{}), release: make(chan struct{})}
+					h := &c18SlowHandler{c18Handler: &c18Handler{id: fmt.Sprintf("h%d:%s", hid, key), name: c18Name(res), apiVersion: c18APIVersion(res)}, entered: make(chan struct{}), release: make(chan struct{})}
 					done := make(chan struct{})
 					go func() {
 						defer close(done)
@@ -357,7 +418,7 @@ func propC18(c *vs.Case, nSubs, nRes, length int) error {
 					case <-time.After(5 * time.Second):
 					}
 					name := fmt.Sprintf("late%d", step)
-					w.sim.ExtCreate(res, map[string]any{"metadata": map[string]any{"name": name, "namespace": "ns1"}})
+					w.sim.ExtCreate(c18Name(res), map[string]any{"metadata": map[string]any{"name": name, "namespace": "ns1"}})
 					// the watch event reaches the shared informer while the replay is still in progress
 					poll(2*time.Second, func() bool {
 						_, err := sub.ri.Lister().Namespace("ns1").Get(name)
@@ -420,7 +481,7 @@ func propC18(c *vs.Case, nSubs, nRes, length int) error {
 				}})
 			}
 		}
-		for _, res := range c18Resources[:nRes] {
+		for _, res := range c18Names(nRes) {
 			res := res
 			if hidden[res] {
 				ops = append(ops, op{"CRD of " + res + " gets installed", func() error {
@@ -431,17 +492,12 @@ func propC18(c *vs.Case, nSubs, nRes, length int) error {
 				}})
 			}
 		}
-		for _, res := range c18Resources[:nRes] {
+		for _, res := range c18Names(nRes) {
 			res := res
 			ops = append(ops, op{"outside create+delete in " + res, func() error {
 				name := fmt.Sprintf("tmp%d", step)
 				w.sim.ExtCreate(res, map[string]any{"metadata": map[string]any{"name": name, "namespace": "ns1"}})
-				var active []*c18Handler
-				for k, s := range w.subs {
-					if strings.HasSuffix(k, "/"+res) {
-						active = append(active, s.handlers...)
-					}
-				}
+				active := w.handlersOn(res)
 				for _, h := range active {
 					hh := h
 					if !poll(5*time.Second, func() bool { return hh.has(name, "") }) {
@@ -501,7 +557,7 @@ func TestVerifC18Exhaustive(t *testing.T) {
 }
 
 func TestVerifC18Random(t *testing.T) {
-	vs.Run(t, "C18", func(c *vs.Case) error { return propC18(c, 2+c.Int(2), 1+c.Int(2), 4+c.Int(14)) })
+	vs.Run(t, "C18", func(c *vs.Case) error { return propC18(c, 2+c.Int(2), 1+c.Int(3), 4+c.Int(14)) })
 }
 
 // Concurrent variant (run under the race detector): every subscriber works from
@@ -518,7 +574,7 @@ func TestVerifC18Concurrent(t *testing.T) {
 		for i := range plans {
 			n := 3 + c.Int(8)
 			for j := 0; j < n; j++ {
-				plans[i] = append(plans[i], step{c.Int(4), c.Int(2)})
+				plans[i] = append(plans[i], step{c.Int(4), c.Int(len(c18Resources))})
 			}
 		}
 		c.Describe(func() any { return map[string]any{"subscribers": nSubs, "plans": fmt.Sprint(plans)} })
@@ -536,7 +592,7 @@ func TestVerifC18Concurrent(t *testing.T) {
 				default:
 				}
 				i++
-				for _, res := range c18Resources {
+				for _, res := range c18Names(len(c18Resources)) {
 					w.sim.ExtCreate(res, map[string]any{"metadata": map[string]any{"name": fmt.Sprintf("e%d", i%5), "namespace": "ns1"}})
 					w.sim.ExtUpdate(res, "ns1", fmt.Sprintf("e%d", i%5), func(o map[string]any) { o["spec"] = map[string]any{"i": int64(i)} })
 					if i%3 == 0 {
@@ -556,14 +612,14 @@ func TestVerifC18Concurrent(t *testing.T) {
 					ri := open[st.res]
 					switch {
 					case ri == nil:
-						r, err := w.factory.Resource(w.def(res).APIVersion(), res)
+						r, err := w.factory.Resource(w.def(res).APIVersion(), c18Name(res))
 						if err != nil {
 							errs <- err
 							return
 						}
 						open[st.res] = r
 					case st.op == 0 || st.op == 1:
-						h := &c18Handler{id: fmt.Sprintf("g%d@%s", i, res)}
+						h := &c18Handler{id: fmt.Sprintf("g%d@%s", i, res), name: c18Name(res), apiVersion: c18APIVersion(res)}
 						mu.Lock()
 						handlers = append(handlers, h)
 						mu.Unlock()
@@ -602,7 +658,7 @@ func TestVerifC18Concurrent(t *testing.T) {
 		}
 		c.NonTrivial()
 		// everything was closed: no informer may keep running, the factory holds nothing
-		for _, res := range c18Resources {
+		for _, res := range c18Names(len(c18Resources)) {
 			res := res
 			if !poll(5*time.Second, func() bool { return w.sim.OpenWatches()[res] == 0 }) {
 				return vs.Violf("C18/informer-lifecycle", "all subscriptions to %s are closed but %d watch stream(s) are still open", res, w.sim.OpenWatches()[res])
@@ -621,6 +677,9 @@ func TestVerifC18Concurrent(t *testing.T) {
 		for i, h := range handlers {
 			if h.size() != sizes[i] {
 				return vs.Violf("C18/event-after-removal", "handler %s still receives events after everything was removed and closed", h.id)
+			}
+			if bad := h.wrong(); bad != "" {
+				return vs.Violf("C18/object-at-wrong-version", "handler %s subscribed through %s but was handed %s", h.id, h.apiVersion, bad)
 			}
 		}
 		return nil
